@@ -5,9 +5,12 @@ import (
 	"encoding/json"
 	"fmt"
 	"os"
+	"strings"
 	"testing"
 	"testing/synctest"
 	"time"
+
+	"github.com/google/uuid"
 
 	"go.6river.tech/mmmbbb/ent/delivery"
 	"go.6river.tech/mmmbbb/services"
@@ -79,5 +82,70 @@ func pruneServiceLoop(t *testing.T, st *Stats) {
 			"history": []string{"registered service prune-completed-deliveries: Initialize, Start (default settings)", "three phases: publish 3, pull, acknowledge, 70 minutes pass", "after every phase no acknowledged delivery may be left"}}, "", " ")
 		os.WriteFile(p, b, 0o644)
 		st.Violate(Violation{What: "[service-loop-stuck] " + what, Replay: p, FoundInput: true, Sig: "service-loop-stuck"})
+	}
+}
+
+// deadLetterServiceLoop runs the registered dead-letter sweep service the way the server does
+// (Initialize, Start: its own timer loop, default settings: a round a minute). A message that has used up
+// its one attempt and whose lease has lapsed is retired and forwarded by the service alone — nobody
+// pulls or nacks — within a few rounds; and again in a second and third phase (the loop keeps running
+// after rounds that moved something and after rounds that moved nothing).
+func deadLetterServiceLoop(t *testing.T, st *Stats) {
+	what := ""
+	synctest.Test(t, func(t *testing.T) {
+		w := NewWorld(t, Seed())
+		defer w.Close()
+		w.Exec(Op{K: "create_topic", Topic: "t"})
+		w.Exec(Op{K: "create_topic", Topic: "d"})
+		w.Exec(Op{K: "create_sub", Sub: "s", Cfg: &SubCfg{Topic: "t", TTL: 30 * 24 * 3600 * Sec, MTTL: 7 * 24 * 3600 * Sec, MinB: Sec, MaxB: 2 * Sec, MaxAtt: 1, DLT: "d"}})
+		w.Exec(Op{K: "create_sub", Sub: "ds", Cfg: &SubCfg{Topic: "d", TTL: 30 * 24 * 3600 * Sec, MTTL: 7 * 24 * 3600 * Sec}})
+		svc := services.NewDeadLetterServiceForVerif()
+		ctx, cancel := context.WithCancel(context.Background())
+		defer cancel()
+		if err := svc.Initialize(ctx, w.Client); err != nil {
+			what = "setup: Initialize: " + err.Error()
+			return
+		}
+		ready := make(chan struct{})
+		done := make(chan error, 1)
+		go func() { done <- svc.Start(ctx, ready) }()
+		<-ready
+		var dsID, sID uuid.UUID
+		w.Dump()
+		for _, row := range w.lastSubs {
+			if row.Name == SubName("ds") {
+				dsID = row.ID
+			} else {
+				sID = row.ID
+			}
+		}
+		for phase := 1; phase <= 3 && what == ""; phase++ {
+			w.Exec(Op{K: "publish", Topic: "t", Msgs: []MsgSpec{{N: phase}}})
+			time.Sleep(time.Millisecond)
+			if r := w.Exec(Op{K: "pull", Sub: "s", Max: 10}); len(r.Delivered) != 1 {
+				what = fmt.Sprintf("setup: phase %d pull delivered %d", phase, len(r.Delivered))
+				break
+			}
+			// the lease (about 1 s) lapses; then five minutes of the service's rounds, nobody pulls
+			time.Sleep(5 * time.Minute)
+			synctest.Wait()
+			open, _ := w.Client.Delivery.Query().Where(delivery.SubscriptionID(sID), delivery.CompletedAtIsNil()).Count(qctx)
+			fwd, _ := w.Client.Delivery.Query().Where(delivery.SubscriptionID(dsID)).Count(qctx)
+			if open != 0 || fwd != phase {
+				what = fmt.Sprintf("phase %d: a message that has had its one attempt and whose lease lapsed five minutes ago is still outstanding on its subscription (%d outstanding) / the dead-letter subscription holds %d deliveries (expected %d): the dead-letter sweep service (a round a minute) has been running all the time and nobody else pulls or nacks", phase, open, fwd, phase)
+			}
+		}
+		cancel()
+		synctest.Wait()
+	})
+	st.Count("dead_letter_service_loop_cases", 1)
+	if what != "" && !strings.HasPrefix(what, "setup:") {
+		p := ReplayPath(fmt.Sprintf("C06-service-loop-%d.json", Seed()))
+		b, _ := json.MarshalIndent(map[string]interface{}{"property": "C06", "sig": "sweep-service-stuck", "seed": Seed(), "what": what,
+			"history": []string{"subscription s (1 attempt, dead-letter topic d), subscription ds on d", "dead-letter sweep service: Initialize, Start (default settings)", "three phases: publish, Pull(s) once, five minutes pass", "after every phase the message is retired on s and forwarded to ds"}}, "", " ")
+		os.WriteFile(p, b, 0o644)
+		st.Violate(Violation{What: "[sweep-service-stuck] " + what, Replay: p, FoundInput: true, Sig: "sweep-service-stuck"})
+	} else if what != "" {
+		st.Count("dead_letter_service_setup_failed", 1)
 	}
 }
